@@ -143,6 +143,8 @@ Section Store.
   Record estore := mkEStore { events : emap; eventsOnce : emap }.
   Definition eempty : estore := mkEStore [] [].
 
+  (** [EOff e hs]: [hs] are the valid handler values among the arguments; the code first drops
+      zero reflect.Values (a literal nil argument names nothing), so `off(e, nil)` is [EOff e []]. *)
   Inductive eop :=
   | EOn (e : N) (a : A)
   | EOnce (e : N) (a : A)
